@@ -65,6 +65,10 @@ template <class Base> struct ExtS : public Session {
     // ext <gfq|mod> <pe|bf|pol|tower> <p> <k> [<s>] : tower = Extension over the non-prime base field GFqDom(p,s), order k
     static Base mk_base(unsigned long p, unsigned long s, GFqDom<int64_t>*) { return GFqDom<int64_t>((uint64_t)p, (uint64_t)s); }
     static Base mk_base(unsigned long p, unsigned long, Modular<int64_t>*) { return Modular<int64_t>((int64_t)p); }
+    static Base mk_base(unsigned long, unsigned long, GF2*) { return GF2(); }
+    static std::string base_info(const GF2&) { return "2 1 -1 1"; }
+    static bool okrep(const GF2&, int64_t r) { return r == 0 || r == 1; }
+    static Ext* mk_pe(unsigned long, unsigned long, char, unsigned long, unsigned long, GF2*) { return 0; }
     static std::string base_info(const GFqDom<int64_t>& b) { std::ostringstream o; o << (ll)b.cardinality() << " " << (ll)b.exponent() << " " << (b.exponent() > 1 ? (ll)b.irreducible() : -1) << " " << (ll)b.generator(); return o.str(); }
     static std::string base_info(const Modular<int64_t>& b) { std::ostringstream o; o << (ll)b.cardinality() << " 1 -1 0"; return o.str(); }
     // way (token "w=<c>[,p2,k2]" at the end of the ext line): how the object that is used was obtained from the constructed one
@@ -388,7 +392,7 @@ int main() {
             if (t[0] == "gf2" || t[0] == "gf2desc" || t[0] == "gf2a" || t[0] == "gf2rand") out = gf2_line(t);
             else if (t[0] == "ext") {
                 delete cur; cur = 0;
-                if (t[1] == "gfq") cur = new ExtS<GFqDom<int64_t> >(t); else cur = new ExtS<Modular<int64_t> >(t);
+                if (t[1] == "gfq") cur = new ExtS<GFqDom<int64_t> >(t); else if (t[1] == "gf2") cur = new ExtS<GF2>(t); else cur = new ExtS<Modular<int64_t> >(t);
                 out = cur->describe();
             } else if (t[0] == "gext") {
                 delete cur; cur = 0;
